@@ -315,3 +315,8 @@ Proof.
     destruct (vd ?= wd) eqn:C; [destruct (vm ?= wm) eqn:C2|..]; symmetry;
       rewrite ?N.compare_lt_iff, ?N.compare_gt_iff, ?N.compare_eq_iff in *; lia.
 Qed.
+
+(* blt as an instance of the order interface of RV.Lib.SortedMap *)
+Require Import RV.Lib.SortedMap.
+Lemma blt_strict_total : StrictTotal blt.
+Proof. split; [exact blt_irrefl|exact blt_trans|exact blt_total]. Qed.
